@@ -53,6 +53,8 @@ def min_version(recipe):
     has_abi = any(d.get("kind") == "abi" for d in recipe.get("vars", []))
     for s in recipe.get("subs", []):
         v = max(v, 4)
+        if any(p["k"] == "ref" for p in s["params"]):
+            v = max(v, 5)  # pass-by-reference uses loads/stores
         if s["ret"].startswith("abi:") or any(p["k"] == "abi" for p in s["params"]) or any(l.get("kind") == "abi" for l in s.get("locals", [])):
             has_abi = True
     if has_abi:
@@ -67,7 +69,7 @@ def min_version(recipe):
         if k == "global":
             v = max(v, MINV_GLOBAL.get(n[1], 2))
         if k == "suffix":
-            v = max(v, 2)
+            v = max(v, 5)  # documented: "Requires program version 5 or higher"
         if k == "nary" and n[1] == "concat":
             v = max(v, 2)
     return v
@@ -150,8 +152,15 @@ class Gen:
             return ["global", rng.choice(["GroupSize", "MinTxnFee", "Round"])]
         if r < .9:
             return ["gget", ["bytes", rng.choice([b"i1", b"i2"]).hex()]]
-        if r < .95:
+        if r < .93:
             return ["gtxn", rng.randrange(0, 2), rng.choice(["Fee", "Amount"])]
+        if r < .95:
+            c = rng.random()
+            if c < .4:
+                return ["lget", ["int", 0], ["bytes", rng.choice([b"lk", b"l2"]).hex()]]
+            if c < .7 and self.v >= 5:
+                return ["btoi", ["txnas", "ApplicationArgs", ["bin", "%", self.ctxint(), ["int", 4]]]]
+            return ["btoi", ["gtxna", 0, "ApplicationArgs", rng.randrange(0, 4)]]
         return ["gex", ["bytes", rng.choice([b"i1", b"i3"]).hex()], ["int", self.small()]]
 
     def ctxbytes(self):
@@ -282,8 +291,19 @@ class Gen:
             if self.v >= 5:
                 return ["extract", base, ["bin", "%", self.u(d - 1, sc), ["int", 3]], ["int", 1]]
             return ["suffix", base, ["bin", "%", self.u(d - 1, sc), ["int", 3]]]
+        if k < .73 and self.v >= 4:
+            # slices on both sides of the 255/256 immediate boundary
+            big = ["nary", "concat", [["bzero", ["int", 300]], self.b(d - 1, sc)]]
+            pts = [0, 1, 2, 254, 255, 256, 257, 299, 300]
+            a0 = rng.choice(pts)
+            r = rng.random()
+            if r < .4:
+                return ["substr", big, ["int", a0], ["int", rng.choice([p for p in pts if p >= a0])]]
+            if r < .7 and self.v >= 5:
+                return ["extract", big, ["int", a0], ["int", rng.choice([0, 1, 2, 44, 255, 256, 257])]]
+            return ["suffix", big, ["int", a0]]
         if k < .75:
-            return ["sha256", self.b(d - 1, sc)]
+            return ["sha256", self.b(d - 1, sc)] if (self.v < 6 or rng.random() < .8) else ["bsqrt", self.b(d - 1, sc)]
         if k < .8 and self.v >= 4:
             r = rng.random()
             if r < .5:
@@ -351,7 +371,10 @@ class Gen:
         if not cands:
             return None
         k = self.rng.choice(cands)
-        return ["call", k, self.call_args(k, d, sc)]
+        args = self.call_args(k, d, sc)
+        if args is None:
+            return None
+        return ["call", k, args]
 
     def callable_subs(self, sc, ret):
         """Indices of subroutines the current routine may call while keeping termination."""
@@ -473,8 +496,12 @@ class Gen:
             if c < .97 and self.allow_itxn and not sc.get("inloop"):
                 return ["itxn", [["TypeEnum", ["int", 1]], ["Amount", ["bin", "%", self.u(1, sc), ["int", 1000]]],
                                  ["Receiver", ["txn", "Sender"]], ["Note", self.b(1, sc)]]]
+            if self.mode == "app" and c < .98:
+                return ["lput", ["int", 0], ["bytes", rng.choice([b"lk", b"l2"]).hex()], self.u(1, sc)]
             if self.mode == "app" and c < .985:
-                return ["lput", ["int", 0], ["bytes", b"lk".hex()], self.u(1, sc)]
+                return ["ldel", ["int", 0], ["bytes", rng.choice([b"lk", b"l2"]).hex()]]
+            if c < .993:
+                return ["if", self.cond(1, sc), ["err"], None]
             return self.effect(sc, 1)
         if k < .42:
             n = rng.randrange(0, 4)
@@ -533,7 +560,9 @@ class Gen:
     # ---------------------------------------------------------------- subroutines and programs
     def make_sub(self, k, rec):
         rng = self.rng
-        ret = rng.choice(["u", "u", "b", "n", "n"] + (["abi:uint64", "abi:string", "abi:uint16", "abi:bool"] if self.allow_abi else []))
+        # recursive ABI-returning routines are left to a dedicated C02 probe: ReturnedValue.store_into evaluates the callee's body
+        # eagerly and relies on a RecursionError to stop, which costs seconds to minutes per compilation
+        ret = rng.choice(["u", "u", "b", "n", "n"] + (["abi:uint64", "abi:string", "abi:uint16", "abi:bool"] if self.allow_abi and not rec else []))
         params = []
         if rec:
             params.append({"k": "u"})
